@@ -322,37 +322,51 @@ func HarnessC13ReadersWait() {
 	zz.Assert("getwatches-no-error", err == nil && len(got) >= 1)
 }
 
-// zzSyncCtrl is a controller whose Start fails once its context is cancelled
-// (controller-runtime reports a cache sync cut short that way), but not
-// before the harness lets it.
+// zzSyncCtrl is a controller whose Start returns - with an error, as
+// controller-runtime does for a cache sync cut short, or cleanly - once its
+// context is cancelled (or at once if it ends on its own), but not before
+// the harness lets it.
 type zzSyncCtrl struct {
 	kcontroller.Controller
 	ctx     chan context.Context
 	release chan struct{}
+	done    chan struct{}
+	fails   bool
+	own     bool
 }
 
 func (c *zzSyncCtrl) Start(ctx context.Context) error {
 	c.ctx <- ctx
-	<-ctx.Done()
+	if !c.own {
+		<-ctx.Done()
+	}
 	<-c.release
-	return errors.New("failed to wait for caches to sync: context canceled")
+	if c.done != nil {
+		defer close(c.done)
+	}
+	if c.fails {
+		return errors.New("failed to wait for caches to sync: context canceled")
+	}
+	return nil
 }
 
-// HarnessC13StaleStop: a controller is started, stopped and started again
-// under the same name (what the XRD controller does when an XRD changes).
-// The first controller's Start returns an error only after the second one is
-// running. The second controller stays running - it is stopped by a Stop call
-// for it, not by the clean-up of its predecessor.
+// HarnessC13StaleStop: a controller whose Start may return an error late
+// (after its context was cancelled, or on its own), with or without a stop
+// and restart under the same name in between (what the XRD controller does
+// when an XRD changes). A controller that fails on its own is cleaned up
+// (IsRunning turns false); a successor started under the same name stays
+// running - it is stopped by a Stop call for it, not by the clean-up of its
+// predecessor.
 //
 //gosym:harness latego locks
-//gosym:cover predecessor-failed-late
+//gosym:cover predecessor-failed-late failed-on-its-own
 func HarnessC13StaleStop() {
 	under := &zzInformers{}
 	elected := make(chan struct{})
 	close(elected)
 	e := New(&zzMgr{elected: elected}, under, nil, nil)
 	const name = "composite/xrs.example.org"
-	first := &zzSyncCtrl{ctx: make(chan context.Context, 1), release: make(chan struct{})}
+	first := &zzSyncCtrl{ctx: make(chan context.Context, 1), release: make(chan struct{}), done: make(chan struct{}), fails: zz.Bool("first.startFails")}
 	second := &zzCtrl{started: make(chan context.Context, 1)}
 	n := 0
 	newCtrl := WithNewControllerFn(func(string, manager.Manager, kcontroller.Options) (kcontroller.Controller, error) {
@@ -363,12 +377,37 @@ func HarnessC13StaleStop() {
 		return second, nil
 	})
 	zz.Assert("start-no-error", e.Start(name, newCtrl) == nil)
+	restarted := zz.Bool("restarted")
+	if !restarted {
+		// the controller ends on its own: its context is never cancelled by a
+		// Stop, so let its Start return
+		first.own = true
+		close(first.release)
+		ctx1 := <-first.ctx
+		_ = ctx1
+		// give the engine's goroutine its turn
+		select {
+		case <-first.done:
+		case <-time.After(500 * time.Millisecond):
+		}
+		if first.fails {
+			zz.Cover("failed-on-its-own")
+			// (natively the clean-up follows Start's return in another goroutine)
+			for i := 0; i < 100 && e.IsRunning(name); i++ {
+				time.Sleep(10 * time.Millisecond)
+			}
+			zz.Assert("failed-controller-is-cleaned-up", !e.IsRunning(name))
+		}
+		return
+	}
 	zz.Assert("stop-no-error", e.Stop(context.Background(), name) == nil)
 	zz.Assert("restart-no-error", e.Start(name, newCtrl) == nil)
 	zz.Assert("running-after-restart", e.IsRunning(name))
-	// the predecessor's Start now returns its error
+	// the predecessor's Start now returns (with an error, or cleanly)
 	close(first.release)
-	zz.Cover("predecessor-failed-late")
+	if first.fails {
+		zz.Cover("predecessor-failed-late")
+	}
 	ctx2 := <-second.started
 	stopped := false
 	select {
